@@ -79,12 +79,16 @@ def _rt_require(I, args, kwargs, st):
     of the caller when the contract is used in place of the callee."""
     name, cond = args[0], args[1]
     t = I.truth_term(cond, st)
-    if st.frame is not None and st.frame.subst:
+    recorded = st.frame is not None and st.frame.subst
+    if recorded:
         st.side.append(("callsite_pre:" + str(name), list(st.pc), t))
     out = []
     for b, s in I.split(t, st):
         if b:
             out.append(("val", None, s))
+    if not out and recorded:
+        # the precondition is violated on this whole path: the path ends here, but its obligation must survive
+        out.append(("exc", ExcVal("<loopend>"), st))
     return out
 
 
